@@ -231,6 +231,26 @@ def gen_measured(rng, n, nsteps, max_digits=5, allow_conf=True, allow_ctrl=True,
             steps += _motif(rng, n)
         else:
             steps.append(gen_ustep(rng, n, arity_w=(0.01, 0.55, 0.40, 0.04)))
+    if allow_ctrl and not terminal_only and rng.random() < 0.3 and digits + 2 <= max_digits + 1:
+        # indexed-condition motif: a key measured twice with different outcomes possible, then a control that names
+        # an instance explicitly (index 0 / -1 / -2)
+        cands = [k for k in keys if measured.get(k, (2,)) == (2,)]
+        if cands:
+            k = cands[int(rng.integers(len(cands)))]
+            w = int(rng.integers(n))
+            mid = {"t": "U", "spec": ["PauliX", "H", "XPow"][int(rng.integers(3))], "p": (), "w": (w,)}
+            if mid["spec"] == "XPow":
+                mid["p"] = (0.5, 0.0)
+            inner = gen_ustep(rng, n, arity_w=(0.0, 0.7, 0.3, 0.0))
+            idx = int(rng.choice([0, 0, -2, -1]))
+            if rng.random() < 0.6:
+                cond = {"t": "key", "key": k, "index": idx, "explicit_index": True}
+            else:
+                cond = {"t": "bitmask", "key": k, "index": idx, "bitmask": None, "target_value": int(rng.integers(2)), "equal_target": bool(rng.integers(2))}
+            motif = [{"t": "M", "key": k, "w": (w,)}, mid, {"t": "M", "key": k, "w": (w,)}, {"t": "C", "cond": cond, "inner": inner}]
+            pos = int(rng.integers(len(steps) + 1))
+            # keep every earlier control valid: insert as one block
+            steps[pos:pos] = motif
     if not any(s["t"] == "M" for s in steps):
         steps.append({"t": "M", "key": keys[0], "w": (int(rng.integers(n)),)})
     return steps
